@@ -617,3 +617,25 @@ def nontrivial(c):
     S, P = call_shapes(call, (n, m))
     return (n != m or S[0] != S[1] or P != S or call.get('omask') is not None
             or isinstance(c['dx'], list) or isinstance(call['du'], list))
+
+
+# ------------------------------------------------------------------ WP-T2: translation layer (source -> Gallina)
+# An ADDITIONAL tie on top of the correspondence check above: harness/gen_src.py (suite 'C02') translates the integer
+# window arithmetic of lentil/propagate.py (_mask_shape, _mask_shift, propagate_dft up to and inside its loop over the
+# fields, with the functions of lentil/extent.py it calls inlined) from the CURRENT source text into
+# coq/theories/Gen/PropagateSrc.v; Proofs/PropagateSrcP.v proves every translated term equal to the model of
+# Model/Propagate.v for all integers; Properties/C02Src.v states it.  Same policy as the C06 layer: a function the
+# translator refuses is only reported (coverage.extra.refused); a translated function whose equivalence lemma no longer
+# compiles is a VIOLATION with a witness searched on an exhaustive small box (replayable: op 'src').  The build of
+# C02Src happens here, never in COQ_TARGETS.
+def extra(tier, rng):
+    from .. import gen_src as G
+    return G.run_layer('C02', ID, tier, rng, C)
+
+
+def _wrap_src_replay():
+    from .. import gen_src as G
+    return G.wrap_replay(run_impl, oracle, C)
+
+
+run_impl, oracle = _wrap_src_replay()
